@@ -117,6 +117,9 @@ func genTScript(rt *rapid.T, maxSteps int, hostile bool) *TScript {
 	sc.Cfg.Clients = rapid.Permutation([]int{0, 1, 2, 3}).Draw(rt, "pool")[:nc]
 	sc.Cfg.LibStatic = rapid.IntRange(0, 3).Draw(rt, "libStatic") == 0
 	sc.Cfg.PlainConns = rapid.IntRange(0, 1).Draw(rt, "plainConns") == 0
+	if !sc.Cfg.LibStatic && rapid.IntRange(0, 3).Draw(rt, "genFails") == 0 {
+		sc.Cfg.GenFailAt = rapid.IntRange(1, 3).Draw(rt, "genFailAt")
+	}
 	sc.Cfg.Deny = []int{3}
 	if rapid.IntRange(0, 4).Draw(rt, "nodeny") == 0 {
 		sc.Cfg.Deny = nil
